@@ -255,6 +255,10 @@ pub struct RunResult {
     pub calls_started: usize,
     pub read_caps: Vec<usize>,
     pub delivered: Vec<usize>,
+    /// per completed call: true = read, false = write
+    pub kinds: Vec<bool>,
+    /// the suspended call (if any) is a read()
+    pub suspended_in_read: bool,
     /// tokio: remaining bytes of a keep-alive reply held by the connection (hook)
     pub unanswered: Option<usize>,
     pub harness_error: Option<String>,
@@ -366,6 +370,9 @@ fn run_blocking(inst: &Instance, hist: &[Act], inner: Arc<Mutex<Inner>>) -> RunR
                 break;
             }
         },
+        Program::Ops(_) => {
+            out.harness_error = Some("Ops programs are driven on the tokio implementation only".into());
+        },
         Program::Writes(ps) => {
             for p in ps {
                 {
@@ -398,17 +405,22 @@ fn run_tokio(inst: &Instance, hist: &[Act], inner: Arc<Mutex<Inner>>) -> RunResu
     let mut framed = tokio_impl::Framed::new(Box::new(World(inner.clone())), Codec::new(mode_of(inst.compressed)));
     framed.verify_version(inst.verify_version);
     let mut next = 0usize; // next history item to feed
-    let writes: Vec<Packet> = match &inst.program {
-        Program::Writes(ps) => ps.clone(),
-        _ => vec![],
+    // ops: None = read(), Some(p) = write(p); ReadLoop = reads for ever
+    let ops: Option<Vec<Option<Packet>>> = match &inst.program {
+        Program::Writes(ps) => Some(ps.iter().cloned().map(Some).collect()),
+        Program::Ops(o) => Some(o.clone()),
+        Program::ReadLoop => None,
     };
-    let is_read = matches!(inst.program, Program::ReadLoop);
-    let mut wi = 0usize;
+    let writes: Vec<Packet> = ops.as_ref().map(|o| o.iter().flatten().cloned().collect()).unwrap_or_default();
+    let mut wi = 0usize; // index into ops
     'calls: loop {
-        if !is_read && wi >= writes.len() {
-            out.finished = true;
-            break;
+        if let Some(o) = &ops {
+            if wi >= o.len() {
+                out.finished = true;
+                break;
+            }
         }
+        let is_read = match &ops { None => true, Some(o) => o[wi].is_none() };
         {
             let mut w = inner.lock().unwrap();
             w.cur_call = out.calls_started as u32;
@@ -425,7 +437,7 @@ fn run_tokio(inst: &Instance, hist: &[Act], inner: Arc<Mutex<Inner>>) -> RunResu
             let fut: Pin<Box<dyn std::future::Future<Output = String> + '_>> = if is_read {
                 Box::pin(async { render(&framed.read().await) })
             } else {
-                let p = writes[wi].clone();
+                let p = ops.as_ref().unwrap()[wi].clone().unwrap();
                 Box::pin(async { render_unit(&framed.write(p).await) })
             };
             let mut task = tokio_test::task::spawn(fut);
@@ -464,7 +476,8 @@ fn run_tokio(inst: &Instance, hist: &[Act], inner: Arc<Mutex<Inner>>) -> RunResu
                 let w = inner.lock().unwrap();
                 out.results.push(s);
                 out.written_at.push(w.written.len());
-                if !is_read {
+                out.kinds.push(is_read);
+                if ops.is_some() {
                     wi += 1;
                 }
                 if w.eof_delivered {
@@ -481,8 +494,15 @@ fn run_tokio(inst: &Instance, hist: &[Act], inner: Arc<Mutex<Inner>>) -> RunResu
                     // a cancelled write is not retried by this driver
                     wi += 1;
                 }
+                if is_read && ops.is_some() {
+                    // in an Ops program the caller gives up on a cancelled read and moves on
+                    wi += 1;
+                }
             },
-            Done::Boundary => break 'calls,
+            Done::Boundary => {
+                out.suspended_in_read = is_read;
+                break 'calls;
+            },
         }
     }
     if next < hist.len() && out.harness_error.is_none() && !out.finished {
